@@ -6,22 +6,28 @@ package main
 //
 //	case <n> issue
 //	ca <kind> <signerLife|none> <chainLives> <root 0|1> <defaultTTL s> <maxTTL s>
-//	      kind: self | selfk8s (NewSelfSignedIstioCAOptions) | plug | plugfile (NewPluggedCertIstioCAOptions) | plugrsa | plug2 | noroot | capchain | nosigner | expired | expiredchain | future   (how the harness builds it)
+//	      kind: self | selfk8s (NewSelfSignedIstioCAOptions) | plug | plugfile (NewPluggedCertIstioCAOptions) | plugrsa | plug2 | noroot | capchain | nosigner | expired | expiredchain | future |
+//	            selfrot (self-signed through NewSelfSignedIstioCAOptions with a rootCertFile, root-cert rotator running)   (how the harness builds it)
 //	      the remaining tokens are the abstract bundle the Lean model reads
 //	na -                                     no CA_TRUSTED_NODE_ACCOUNTS
 //	na <trusted ns/sa list> <k> <id1> <pods1> ... <idk> <podsk>
 //	      pods: list of name|ns|uid|sa|node
 //	req <ctx> <outs> <csr> <ttl> <imp> <signer> <cluster> <junk>
-//	      ctx: 4 flags xdsAuth,hasPeer,tls,authPlaintext
+//	      ctx: 4 flags xdsAuth,hasPeer,authInfo (0 none, 1 credentials.TLSInfo, 2 another AuthInfo),authPlaintext
 //	      outs: list of authenticator outcomes kind|ids|podName|podNs|podUID|podSA, kind in ok,nil,err,both
 //	      csr: form|key|cn|org|sans|ca|extra
-//	      ttl: int64 seconds; imp/signer: - | s:<string> | n (a non-string value)
+//	      ttl: int64 seconds; imp/signer: - | s:<string> | n (number) | l (list) | o (struct) | b (bool) | z (null)
 //	      cluster: - | list of "clusterid" metadata values; junk: number of unrelated metadata fields
-//	reqa <authspec> <csr> <ttl> <imp> <signer> <cluster> <junk>
+//	reqa <authspec> <csr> <ttl> <imp> <signer> <cluster> <junk> [t=<mode>]
 //	      the same request authenticated by one REAL authenticator in Server.Authenticators;
 //	      authspec = the tokens of an `authn` line (stream authn, see authn.go) after the word authn
-//	reqm <list of authspecs> <csr> <ttl> <imp> <signer> <cluster> <junk>
+//	      mode: the connection is not TLS - plain (no AuthInfo, XDS_AUTH_PLAINTEXT on) | noauth (no AuthInfo) |
+//	            other (a non-TLS AuthInfo) | otherplain (non-TLS AuthInfo, XDS_AUTH_PLAINTEXT on)
+//	reqm <list of authspecs> <csr> <ttl> <imp> <signer> <cluster> <junk> [t=<mode>]
 //	      several REAL authenticators in Server.Authenticators, in order, seeing the one request
+//	mesh <td>                                the mesh config's trust domain changes (authenticators built earlier or later must follow it)
+//	rot <life> <chain -|c>                   the key cert bundle is replaced under the live CA (kind selfrot: by the REAL root-cert rotator)
+//	genkeycert <hosts> <ttl>                 IstioCA.GenKeyCert
 //
 // Output lines: `ok`, `ca-ok`/`ca-err`, `na-ok`, and for a request
 //
@@ -103,9 +109,12 @@ func decFields(s string) []string {
 
 type keyring struct {
 	keys map[string]crypto.Signer
+	// genChecked / genFault: how many CSRs of the real util.GenCSR were examined and the first defect found (oracle clause gencsr-*)
+	genChecked int
+	genFault   string
 }
 
-var keyNames = []string{"rsa-a", "rsa-b", "ec256-a", "ec256-b", "ec384", "ec521", "ed25519"}
+var keyNames = []string{"rsa-a", "rsa-b", "ec256-a", "ec256-b", "ec384", "ec521", "ed25519", "rsa1024"}
 
 func newKeyring() *keyring {
 	k := &keyring{keys: map[string]crypto.Signer{}}
@@ -119,6 +128,8 @@ func newKeyring() *keyring {
 	k.keys["rsa-a"], err = rsa.GenerateKey(rand.Reader, 2048)
 	must(err)
 	k.keys["rsa-b"], err = rsa.GenerateKey(rand.Reader, 2048)
+	must(err)
+	k.keys["rsa1024"], err = rsa.GenerateKey(rand.Reader, 1024) // a weak key: the CA has no key-size policy (observation)
 	must(err)
 	k.keys["ec256-a"], err = ecdsa.GenerateKey(elliptic.P256(), rand.Reader)
 	must(err)
@@ -137,6 +148,8 @@ func newKeyring() *keyring {
 // csrSpec is the adversarial content of one CSR.
 type csrSpec struct {
 	form  string   // ok oktype oktrail oklead nopem empty badder trunc badsig emptyblock gen (real util.GenCSR)
+	//                multi (a second CSR block behind the first) multibad (garbage block in front) pss (RSA-PSS signature)
+	//                unkkey (public key algorithm Go does not know) flip<n> (one corrupted byte at n/64 of the DER)
 	key   string   // name in the keyring
 	cn    string   // Subject.CommonName
 	org   string   // Subject.Organization
@@ -160,10 +173,15 @@ func (c csrSpec) tok() string {
 // csrDERShape says which forms carry a DER that x509.ParseCertificateRequest accepts.
 func csrFormParses(form string) bool {
 	switch form {
-	case "ok", "oktype", "oktrail", "oklead", "badsig", "gen":
+	case "ok", "oktype", "oktrail", "oklead", "badsig", "gen", "multi", "pss", "unkkey":
 		return true
 	}
 	return false
+}
+
+// csrFormValid: the CSR is well-formed and carries a valid proof of possession.
+func csrFormValid(form string) bool {
+	return csrFormParses(form) && form != "badsig" && form != "unkkey"
 }
 
 var (
@@ -198,7 +216,7 @@ func (k *keyring) build(c csrSpec) (string, []byte) {
 		case "rsa-a":
 			o.ECSigAlg, o.RSAKeySize = "", 2048
 		}
-		csrPEM, _, err := util.GenCSR(o)
+		csrPEM, keyPEM, err := util.GenCSR(o)
 		if err != nil {
 			return "csr-build-failed:" + err.Error(), nil
 		}
@@ -206,13 +224,26 @@ func (k *keyring) build(c csrSpec) (string, []byte) {
 		if err != nil {
 			return "csr-build-failed:" + err.Error(), nil
 		}
+		k.genChecked++
+		if fault := genCSRFault(o, c, csrPEM, keyPEM); fault != "" && k.genFault == "" {
+			k.genFault = fault
+		}
 		return string(csrPEM), parsed.RawSubjectPublicKeyInfo
 	}
 	priv := k.keys[c.key]
 	if priv == nil {
 		priv = k.keys["ec256-a"]
 	}
+	if c.form == "pss" {
+		priv = k.keys["rsa-a"]
+	}
+	if c.form == "unkkey" {
+		priv = k.keys["ed25519"]
+	}
 	tmpl := &x509.CertificateRequest{Subject: pkix.Name{CommonName: c.cn}}
+	if c.form == "pss" {
+		tmpl.SignatureAlgorithm = x509.SHA256WithRSAPSS
+	}
 	if c.org != "" {
 		tmpl.Subject.Organization = []string{c.org}
 	}
@@ -252,6 +283,17 @@ func (k *keyring) build(c csrSpec) (string, []byte) {
 	case "badsig":
 		der = append([]byte(nil), der...)
 		der[len(der)-3] ^= 0x55
+	case "unkkey":
+		// the SubjectPublicKeyInfo names Ed448 (1.3.101.113), which crypto/x509 does not implement: no proof of possession can be checked
+		der = bytes.Replace(der, []byte{0x06, 0x03, 0x2b, 0x65, 0x70}, []byte{0x06, 0x03, 0x2b, 0x65, 0x71}, 1)
+		spki = nil
+	}
+	if strings.HasPrefix(c.form, "flip") {
+		// one corrupted byte somewhere in the DER: no longer parses, or the signature no longer verifies
+		n, _ := strconv.Atoi(c.form[4:])
+		der = append([]byte(nil), der...)
+		der[(n%64)*len(der)/64] ^= 0x21
+		spki = nil
 	}
 	p := string(pem.EncodeToMemory(&pem.Block{Type: typ, Bytes: der}))
 	switch c.form {
@@ -259,13 +301,120 @@ func (k *keyring) build(c csrSpec) (string, []byte) {
 		p += "trailing garbage\n-----BEGIN X-----\n"
 	case "oklead":
 		p = "leading text\n" + p
+	case "multi", "multibad":
+		// two PEM blocks: only the first one counts
+		other, _ := x509.CreateCertificateRequest(rand.Reader, &x509.CertificateRequest{Subject: pkix.Name{CommonName: "second-block"}}, k.keys["ec256-b"])
+		second := string(pem.EncodeToMemory(&pem.Block{Type: "CERTIFICATE REQUEST", Bytes: other}))
+		if c.form == "multi" {
+			p += second
+		} else {
+			p = string(pem.EncodeToMemory(&pem.Block{Type: "CERTIFICATE REQUEST", Bytes: []byte{0x30, 0x03, 0x02, 0x01, 0x01}})) + p
+			spki = nil
+		}
 	}
 	return p, spki
+}
+
+// genCSRFault examines what the REAL util.GenCSR returned for the options `o` (oracle clause gencsr-*): a
+// well-formed CSR with a valid proof of possession by the returned private key, of the key type asked for, that
+// requests exactly the hosts as SAN entries (nothing else: no CA, no key usage), with the dual-use CN iff asked.
+func genCSRFault(o util.CertOptions, c csrSpec, csrPEM, keyPEM []byte) string {
+	block, _ := pem.Decode(csrPEM)
+	if block == nil || block.Type != "CERTIFICATE REQUEST" {
+		return "not-pem"
+	}
+	csr, err := x509.ParseCertificateRequest(block.Bytes)
+	if err != nil || csr.CheckSignature() != nil {
+		return "no-proof-of-possession"
+	}
+	key, err := util.ParsePemEncodedKey(keyPEM)
+	if err != nil {
+		return "key-unparsable"
+	}
+	signer, ok := key.(crypto.Signer)
+	if !ok {
+		return "key-unparsable"
+	}
+	pub, err := x509.MarshalPKIXPublicKey(signer.Public())
+	if err != nil || !bytes.Equal(pub, csr.RawSubjectPublicKeyInfo) {
+		return "key-mismatch"
+	}
+	switch pk := signer.Public().(type) {
+	case *ecdsa.PublicKey:
+		want := elliptic.P256()
+		if o.ECCCurve == util.P384Curve {
+			want = elliptic.P384()
+		}
+		if o.ECSigAlg == "" || pk.Curve != want {
+			return "key-type"
+		}
+	case *rsa.PublicKey:
+		if o.ECSigAlg != "" || pk.N.BitLen() != o.RSAKeySize {
+			return "key-type"
+		}
+	default:
+		return "key-type"
+	}
+	var sans []string
+	for _, e := range csr.Extensions {
+		if !e.Id.Equal(oidSAN) {
+			return "extra-extension" // nothing but names is requested
+		}
+		entries, err := rawSANEntries(e.Value)
+		if err != nil {
+			return "san-unparsable"
+		}
+		sans = append(sans, entries...)
+	}
+	var want []string
+	for _, h := range c.sans {
+		want = append(want, oracleSAN(h))
+	}
+	if strings.Join(sans, ",") != strings.Join(want, ",") {
+		return "san-not-the-hosts"
+	}
+	cn := ""
+	if o.IsDualUse && len(c.sans) > 0 && len(c.sans[0]) <= 64 {
+		cn = c.sans[0]
+	}
+	if csr.Subject.CommonName != cn {
+		return "common-name"
+	}
+	return ""
+}
+
+// rawSANEntries decodes the value of a subjectAltName extension entry by entry.
+func rawSANEntries(value []byte) ([]string, error) {
+	var out []string
+	var seq asn1.RawValue
+	if _, err := asn1.Unmarshal(value, &seq); err != nil {
+		return nil, err
+	}
+	for b := seq.Bytes; len(b) > 0; {
+		var rv asn1.RawValue
+		var err error
+		if b, err = asn1.Unmarshal(b, &rv); err != nil {
+			return nil, err
+		}
+		switch rv.Tag {
+		case 2:
+			out = append(out, "D:"+wire.Enc(string(rv.Bytes)))
+		case 6:
+			out = append(out, "U:"+wire.Enc(string(rv.Bytes)))
+		case 7:
+			out = append(out, "I:"+hex.EncodeToString(rv.Bytes))
+		default:
+			out = append(out, fmt.Sprintf("O%d:%s", rv.Tag, hex.EncodeToString(rv.Bytes)))
+		}
+	}
+	return out, nil
 }
 
 // ---------------------------------------------------------------- fixtures: CAs
 
 type caFixtures struct {
+	extraRoot string             // file handed to NewSelfSignedIstioCAOptions as rootCertFile (kind selfrot): the ECDSA root
+	rotStop   chan struct{}      // stops the root-cert rotator of the previous selfrot CA
 	k8s    *k8sfake.Clientset // the API server holding istio-ca-secret (kind selfk8s)
 	rsaInt [][]byte           // cached RSA intermediate: cert PEM, key PEM
 	selfBundle *util.KeyCertBundle // RSA self-signed root, built once (real NewSelfSignedDebugIstioCAOptions)
@@ -301,6 +450,61 @@ func newCAFixtures() *caFixtures {
 	f.int1Cert, _ = util.ParsePemEncodedCertificate(int1Pem)
 	f.int1Key, _ = util.ParsePemEncodedKey(int1KeyPem)
 	return f
+}
+
+// cleanup removes what the fixtures left outside the process.
+func (f *caFixtures) cleanup() {
+	if f.rotStop != nil {
+		close(f.rotStop)
+		f.rotStop = nil
+	}
+	if f.extraRoot != "" {
+		os.Remove(f.extraRoot)
+		f.extraRoot = ""
+	}
+}
+
+// selfRotating: a self-signed CA as istiod builds it - NewSelfSignedIstioCAOptions against a Kubernetes API that
+// already holds istio-ca-secret (root valid for `life` seconds from now, the process' cached RSA key), a
+// rootCertFile with a further root (util.AppendRootCerts), the root-cert rotator created by NewIstioCA and
+// started by IstioCA.Run (check interval one hour; the harness triggers a check through the verif hook).
+func (f *caFixtures) selfRotating(life, def, max int64) (*ca.IstioCA, error) {
+	b, err := f.self()
+	if err != nil {
+		return nil, err
+	}
+	_, keyPem, _, _ := b.GetAllPem()
+	ttl := time.Duration(life) * time.Second
+	certPem, _, err := util.GenRootCertFromExistingKey(util.CertOptions{TTL: ttl, SignerPrivPem: keyPem, Org: "verif.org", IsCA: true, IsSelfSigned: true, RSAKeySize: 2048})
+	if err != nil {
+		return nil, err
+	}
+	if f.extraRoot == "" {
+		tmp, err := os.CreateTemp("", "c09-extra-root-*.pem")
+		if err != nil {
+			return nil, err
+		}
+		_, _ = tmp.Write(f.rootPem)
+		tmp.Close()
+		f.extraRoot = tmp.Name()
+	}
+	client := k8sfake.NewSimpleClientset(&v1.Secret{ObjectMeta: metav1.ObjectMeta{Name: ca.CASecret, Namespace: "istio-system"},
+		Data: map[string][]byte{ca.CACertFile: certPem, ca.CAPrivateKeyFile: keyPem}})
+	opts, err := ca.NewSelfSignedIstioCAOptions(context.Background(), 100, ttl, time.Hour, time.Duration(def)*time.Second, time.Duration(max)*time.Second,
+		"verif.org", false, false, "istio-system", client.CoreV1(), f.extraRoot, false, 2048)
+	if err != nil {
+		return nil, err
+	}
+	c, err := ca.NewIstioCA(opts)
+	if err != nil {
+		return nil, err
+	}
+	if f.rotStop != nil {
+		close(f.rotStop)
+	}
+	f.rotStop = make(chan struct{})
+	c.Run(f.rotStop)
+	return c, nil
 }
 
 func (f *caFixtures) self() (*util.KeyCertBundle, error) {
@@ -400,6 +604,12 @@ func (f *caFixtures) buildCA(kind string, life, chainLife int64, def, max int64)
 			return nil, fmt.Errorf("fixture: %v", oerr)
 		}
 		return ca.NewIstioCA(opts)
+	case "selfrot":
+		c, rerr := f.selfRotating(life, def, max)
+		if rerr != nil {
+			return nil, fmt.Errorf("fixture: %v", rerr)
+		}
+		return c, nil
 	case "plugrsa":
 		// an RSA intermediate under the ECDSA root (generated once per process, ten years)
 		if f.rsaInt == nil {
@@ -749,6 +959,10 @@ func (x *world) event(f []string) error {
 			x.ids = append(x.ids, id)
 			x.pods[id] = nil
 		}
+		if x.pending[id] != nil {
+			// a second update before the first one synced: the predecessor now is that unsynced component (empty informer)
+			x.pods[id] = nil
+		}
 		x.pending[id] = &pendingUpdate{client: client, pods: pods, swaps: swaps}
 		return nil
 	case len(f) == 3 && f[0] == "cl" && f[1] == "sync":
@@ -880,6 +1094,8 @@ func (s scripted) Authenticate(security.AuthContext) (*security.Caller, error) {
 
 type reqSpec struct {
 	xdsAuth, hasPeer, tls, plaintext bool
+	other                            bool   // the peer's AuthInfo is neither nil nor credentials.TLSInfo
+	mode                             string // reqa / reqm: "" (TLS) | plain | noauth | other | otherplain
 	outs                             []authOutcome
 	csr                              csrSpec
 	ttl                              int64
@@ -892,7 +1108,7 @@ func parseReq(f []string) (reqSpec, error) {
 	if len(f) != 9 || len(f[1]) != 4 {
 		return reqSpec{}, errors.New("bad req line")
 	}
-	r := reqSpec{xdsAuth: f[1][0] == '1', hasPeer: f[1][1] == '1', tls: f[1][2] == '1', plaintext: f[1][3] == '1'}
+	r := reqSpec{xdsAuth: f[1][0] == '1', hasPeer: f[1][1] == '1', tls: f[1][2] == '1', other: f[1][2] == '2', plaintext: f[1][3] == '1'}
 	r.outs = parseOutcomes(f[2])
 	r.csr = parseCSRSpec(wire.Dec(f[3]))
 	ttl, err := strconv.ParseInt(f[4], 10, 64)
@@ -906,7 +1122,11 @@ func parseReq(f []string) (reqSpec, error) {
 }
 
 func (r reqSpec) line() []string {
-	ctx := wire.B(r.xdsAuth) + wire.B(r.hasPeer) + wire.B(r.tls) + wire.B(r.plaintext)
+	auth := wire.B(r.tls)
+	if r.other {
+		auth = "2"
+	}
+	ctx := wire.B(r.xdsAuth) + wire.B(r.hasPeer) + auth + wire.B(r.plaintext)
 	return []string{"req", ctx, encOutcomes(r.outs), r.csr.tok(), strconv.FormatInt(r.ttl, 10), r.imp, r.signer, r.cluster, strconv.Itoa(r.junk)}
 }
 
@@ -923,6 +1143,8 @@ func (r reqSpec) build(k *keyring) (context.Context, *pb.IstioCertificateRequest
 		p := &peer.Peer{Addr: &net.IPAddr{IP: net.IPv4(192, 168, 1, 1)}}
 		if r.tls {
 			p.AuthInfo = credentials.TLSInfo{}
+		} else if r.other {
+			p.AuthInfo = otherAuthInfo{}
 		}
 		ctx = peer.NewContext(ctx, p)
 	}
@@ -935,8 +1157,20 @@ func (r reqSpec) build(k *keyring) (context.Context, *pb.IstioCertificateRequest
 	put := func(key, tok string) {
 		if s, ok := metaString(tok); ok {
 			fields[key] = s
-		} else if tok == "n" {
+			return
+		}
+		// values that are not strings: GetStringValue() yields "" for every one of them
+		switch tok {
+		case "n":
 			fields[key] = 42.0
+		case "l":
+			fields[key] = []any{"spiffe://cluster.local/ns/kube-system/sa/admin"}
+		case "o":
+			fields[key] = map[string]any{"identity": "spiffe://cluster.local/ns/kube-system/sa/admin"}
+		case "b":
+			fields[key] = true
+		case "z":
+			fields[key] = nil
 		}
 	}
 	put(security.ImpersonatedIdentity, r.imp)
@@ -1026,27 +1260,11 @@ func parseLeaf(pemText string) (*leafView, error) {
 		case e.Id.Equal(oidSAN):
 			v.sanCount++
 			v.sanCritical = e.Critical
-			var seq asn1.RawValue
-			if _, err := asn1.Unmarshal(e.Value, &seq); err != nil {
+			entries, err := rawSANEntries(e.Value)
+			if err != nil {
 				return nil, err
 			}
-			for b := seq.Bytes; len(b) > 0; {
-				var rv asn1.RawValue
-				var err error
-				if b, err = asn1.Unmarshal(b, &rv); err != nil {
-					return nil, err
-				}
-				switch rv.Tag {
-				case 2:
-					v.sans = append(v.sans, "D:"+wire.Enc(string(rv.Bytes)))
-				case 6:
-					v.sans = append(v.sans, "U:"+wire.Enc(string(rv.Bytes)))
-				case 7:
-					v.sans = append(v.sans, "I:"+hex.EncodeToString(rv.Bytes))
-				default:
-					v.sans = append(v.sans, fmt.Sprintf("O%d:%s", rv.Tag, hex.EncodeToString(rv.Bytes)))
-				}
-			}
+			v.sans = append(v.sans, entries...)
 		case e.Id.Equal(oidBasicConstraints):
 			v.bcPresent = true
 			var bc struct {
@@ -1103,8 +1321,16 @@ type issueSUT struct {
 	worlds *worlds
 	cur    *world
 	caOK   bool
+	caKind string
 	maxTTL int64
 	naLine []string
+}
+
+func (s *issueSUT) close() {
+	if s.private && s.cur != nil {
+		s.cur.close()
+	}
+	s.fix.cleanup()
 }
 
 func newIssueSUT() *issueSUT {
@@ -1155,11 +1381,14 @@ type reqaSpec struct {
 }
 
 func parseReqA(f []string) (reqaSpec, error) {
-	if len(f) != 8 {
+	if len(f) != 8 && !(len(f) == 9 && validMode(f[8])) {
 		return reqaSpec{}, errors.New("bad reqa line")
 	}
 	a := reqaSpec{spec: strings.Fields(wire.Dec(f[1]))}
 	a.req = reqSpec{xdsAuth: true, hasPeer: true, tls: true, csr: parseCSRSpec(wire.Dec(f[2])), imp: f[4], signer: f[5], cluster: f[6]}
+	if len(f) == 9 {
+		a.req.mode = f[8][2:]
+	}
 	ttl, err := strconv.ParseInt(f[3], 10, 64)
 	if err != nil {
 		return a, err
@@ -1169,9 +1398,46 @@ func parseReqA(f []string) (reqaSpec, error) {
 	return a, nil
 }
 
+func validMode(tok string) bool {
+	switch tok {
+	case "t=plain", "t=noauth", "t=other", "t=otherplain":
+		return true
+	}
+	return false
+}
+
+// modeTail: the optional trailing transport-mode token of a reqa / reqm line.
+func modeTail(l []string, mode string) []string {
+	if mode != "" {
+		return append(l, "t="+mode)
+	}
+	return l
+}
+
+// applyMode replaces the TLS connection of the prepared request by the non-TLS one the mode names; it returns
+// the value of XDS_AUTH_PLAINTEXT to run with.
+func applyMode(p *prepared, mode string) (plaintext bool) {
+	switch mode {
+	case "plain":
+		p.authInfo = nil
+		return true
+	case "noauth":
+		p.authInfo = nil
+	case "other":
+		p.authInfo = otherAuthInfo{}
+	case "otherplain":
+		p.authInfo = otherAuthInfo{}
+		return true
+	}
+	return false
+}
+
+// modeAuthenticates: security.Authenticate gets as far as the authenticators.
+func modeAuthenticates(mode string) bool { return mode == "" || mode == "plain" || mode == "otherplain" }
+
 func (a reqaSpec) line() []string {
-	return []string{"reqa", wire.Enc(strings.Join(a.spec, " ")), a.req.csr.tok(), strconv.FormatInt(a.req.ttl, 10), a.req.imp, a.req.signer, a.req.cluster,
-		strconv.Itoa(a.req.junk)}
+	return modeTail([]string{"reqa", wire.Enc(strings.Join(a.spec, " ")), a.req.csr.tok(), strconv.FormatInt(a.req.ttl, 10), a.req.imp, a.req.signer, a.req.cluster,
+		strconv.Itoa(a.req.junk)}, a.req.mode)
 }
 
 // reqmSpec: several REAL authenticators in Server.Authenticators, in the given order (as istiod's chain
@@ -1198,8 +1464,8 @@ func (m reqmSpec) line() []string {
 	for _, sp := range m.specs {
 		l = append(l, strings.Join(sp, " "))
 	}
-	return []string{"reqm", wire.EncList(l), m.req.csr.tok(), strconv.FormatInt(m.req.ttl, 10), m.req.imp, m.req.signer, m.req.cluster,
-		strconv.Itoa(m.req.junk)}
+	return modeTail([]string{"reqm", wire.EncList(l), m.req.csr.tok(), strconv.FormatInt(m.req.ttl, 10), m.req.imp, m.req.signer, m.req.cluster,
+		strconv.Itoa(m.req.junk)}, m.req.mode)
 }
 
 // runM merges the transport-level ingredients of the specs into ONE request context: the metadata of all
@@ -1238,7 +1504,7 @@ func (s *issueSUT) runM(m reqmSpec) (issueResult, error) {
 		base.md["clusterid"] = wire.DecList(m.req.cluster)
 	}
 	features.XDSAuth = true
-	security.AuthPlaintext = false
+	security.AuthPlaintext = applyMode(base, m.req.mode)
 	_, req, spki := m.req.build(s.keys)
 	return s.runWith(base.grpcContext(), auths, req, spki), nil
 }
@@ -1261,7 +1527,7 @@ func (s *issueSUT) runA(a reqaSpec) (issueResult, *prepared, error) {
 		p.md["clusterid"] = wire.DecList(a.req.cluster)
 	}
 	features.XDSAuth = true
-	security.AuthPlaintext = false
+	security.AuthPlaintext = applyMode(p, a.req.mode)
 	_, req, spki := a.req.build(s.keys)
 	return s.runWith(p.grpcContext(), []security.Authenticator{p.auth}, req, spki), p, nil
 }
@@ -1349,6 +1615,9 @@ func (s *issueSUT) format(res issueResult) string {
 	chainCerts := util.PemCertBytestoString(chainPem)
 	got := res.resp.CertChain
 	root := len(rootPem) > 0 && got[len(got)-1] == string(rootPem)
+	if s.caKind == "selfrot" && !bytes.Contains(rootPem, bytes.TrimSpace(s.fix.rootPem)) {
+		root = false // util.AppendRootCerts: the roots of rootCertFile belong to the root bundle, also after a rotation
+	}
 	mid := true
 	for i, c := range chainCerts {
 		if 1+i >= len(got) || strings.TrimSpace(got[1+i]) != strings.TrimSpace(c) {
@@ -1368,6 +1637,51 @@ func (s *issueSUT) format(res issueResult) string {
 		l.keyUsage, wire.EncList(l.eku), wire.EncList(l.xext), life, wire.B(le), len(got), wire.B(mid), wire.B(root))
 }
 
+// keyCertResult: what IstioCA.GenKeyCert (istiod's own serving certificate: signWithCertChain without lifetime
+// check) returned.
+type keyCertResult struct {
+	err    bool
+	leaf   *leafView
+	perr   error
+	keyPEM []byte
+	before time.Time
+	after  time.Time
+}
+
+func (s *issueSUT) genKeyCert(hosts []string, ttl int64) (r keyCertResult) {
+	r.before = time.Now()
+	certPEM, keyPEM, err := s.holder.cur.GenKeyCert(hosts, time.Duration(ttl)*time.Second, false)
+	r.after = time.Now()
+	if err != nil {
+		r.err = true
+		return r
+	}
+	r.keyPEM = keyPEM
+	r.leaf, r.perr = parseLeaf(string(certPEM))
+	return r
+}
+
+func (s *issueSUT) formatKeyCert(r keyCertResult) string {
+	if r.err {
+		return "err"
+	}
+	if r.perr != nil {
+		return "unparsable-leaf " + wire.Enc(r.perr.Error())
+	}
+	l := r.leaf
+	sans := "-"
+	if len(l.sans) > 0 {
+		sans = strings.Join(l.sans, ",")
+	}
+	signer := s.signerCert()
+	life := "clamp"
+	if signer == nil || !l.notAfter.Equal(signer.NotAfter) {
+		life = strconv.FormatInt(int64(l.notAfter.Sub(l.notBefore)/time.Second)-120, 10)
+	}
+	return fmt.Sprintf("ok san=%s ca=%s sig=%s life=%s", sans, wire.B(l.isCA), wire.B(s.signedBySigner(l)), life)
+}
+
+// apply executes every op that is not a request (those are executed and judged by issueJudge.step).
 func (s *issueSUT) apply(f []string) (out string) {
 	defer func() {
 		if rec := recover(); rec != nil {
@@ -1381,7 +1695,20 @@ func (s *issueSUT) apply(f []string) (out string) {
 			s.cur.close()
 		}
 		s.cur, s.private = nil, false
+		if s.authn != nil {
+			s.authn.mesh = nil
+		}
 		return "ok"
+	case "mesh":
+		if len(f) != 2 {
+			return "bad-op"
+		}
+		if s.authn == nil {
+			s.authn = newAuthnSUT()
+		}
+		td := wire.Dec(f[1])
+		s.authn.mesh = &td
+		return "mesh-ok"
 	case "ca":
 		if len(f) != 7 {
 			return "bad-op"
@@ -1406,6 +1733,7 @@ func (s *issueSUT) apply(f []string) (out string) {
 		}
 		s.holder.cur = c
 		s.caOK = true
+		s.caKind = f[1]
 		s.maxTTL = max
 		return "ca-ok"
 	case "rot":
@@ -1415,6 +1743,18 @@ func (s *issueSUT) apply(f []string) (out string) {
 			return "bad-op"
 		}
 		life, _ := strconv.ParseInt(f[1], 10, 64)
+		if s.caKind == "selfrot" {
+			// the REAL self-signed root-cert rotator: one check (grace period 100 %: the root is always due), which
+			// generates a new root from the existing key, updates istio-ca-secret and the live key cert bundle
+			old := s.signerCert()
+			if !s.holder.cur.VerifCheckAndRotateRootCert() {
+				return "fixture-failed no-rotator"
+			}
+			if now := s.signerCert(); old == nil || now == nil || now.Equal(old) {
+				return "rot-err"
+			}
+			return "rot-ok"
+		}
 		c, k, err := s.fix.signerCert(s.fix.rootCert, s.fix.rootKey, life)
 		if err != nil {
 			return "fixture-failed " + wire.Enc(err.Error())
@@ -1427,30 +1767,6 @@ func (s *issueSUT) apply(f []string) (out string) {
 			return "rot-err"
 		}
 		return "rot-ok"
-	case "genkeycert":
-		// istiod's own serving certificate: the real IstioCA.GenKeyCert (signWithCertChain without lifetime check)
-		if !s.caOK || len(f) != 3 {
-			return "bad-op"
-		}
-		ttl, _ := strconv.ParseInt(f[2], 10, 64)
-		certPEM, _, err := s.holder.cur.GenKeyCert(wire.DecList(f[1]), time.Duration(ttl)*time.Second, false)
-		if err != nil {
-			return "err"
-		}
-		l, perr := parseLeaf(string(certPEM))
-		if perr != nil {
-			return "unparsable-leaf " + wire.Enc(perr.Error())
-		}
-		sans := "-"
-		if len(l.sans) > 0 {
-			sans = strings.Join(l.sans, ",")
-		}
-		signer := s.signerCert()
-		life := "clamp"
-		if signer == nil || !l.notAfter.Equal(signer.NotAfter) {
-			life = strconv.FormatInt(int64(l.notAfter.Sub(l.notBefore)/time.Second)-120, 10)
-		}
-		return fmt.Sprintf("ok san=%s ca=%s sig=%s life=%s", sans, wire.B(l.isCA), wire.B(s.signedBySigner(l)), life)
 	case "pod", "cl":
 		if s.cur == nil || !s.private {
 			return "bad-op"
@@ -1471,41 +1787,6 @@ func (s *issueSUT) apply(f []string) (out string) {
 		s.cur = w
 		s.naLine = f
 		return "na-ok"
-	case "req":
-		if !s.caOK || s.cur == nil {
-			return "no-ca"
-		}
-		r, err := parseReq(f)
-		if err != nil {
-			return "bad-op"
-		}
-		return s.format(s.run(r))
-	case "reqm":
-		if !s.caOK || s.cur == nil {
-			return "no-ca"
-		}
-		m, err := parseReqM(f)
-		if err != nil {
-			return "bad-op"
-		}
-		res, err := s.runM(m)
-		if err != nil {
-			return "fixture-failed " + wire.Enc(err.Error())
-		}
-		return s.format(res)
-	case "reqa":
-		if !s.caOK || s.cur == nil {
-			return "no-ca"
-		}
-		a, err := parseReqA(f)
-		if err != nil {
-			return "bad-op"
-		}
-		res, _, err := s.runA(a)
-		if err != nil {
-			return "fixture-failed " + wire.Enc(err.Error())
-		}
-		return s.format(res)
 	}
 	return "bad-op"
 }
